@@ -152,3 +152,30 @@ Fixpoint mech_replay (pop : nat) (s : qs) (tr : list oobs) : bool :=
       zlist_eqb (res (getj s1 j)) r && enabled pop s1 (Run j) && mech_replay pop (qstep pop s1 (Run j)) t
   | ObsEnd j :: t => enabled pop s (Finish j) && mech_replay pop (qstep pop s (Finish j)) t
   end.
+
+(* ---------------- what the mechanism model shows to an observer ----------------
+   Only events that are enabled happen.  [Take] is invisible (the run-function has not been called yet), [Run j] is the
+   moment the run-function is called with the resources bound to job j, [Finish j] the moment it returns. *)
+Fixpoint obs_trace (pop : nat) (s : qs) (sched : list qev) : list oobs :=
+  match sched with
+  | [] => []
+  | e :: t =>
+      (if enabled pop s e
+       then match e with Take _ => [] | Run j => [ObsStart j (res (getj s j))] | Finish j => [ObsEnd j] end
+       else []) ++ obs_trace pop (qstep pop s e) t
+  end.
+
+(* the 'dequed' metadata the model reports for each job: what the job is bound to *)
+Definition model_meta (s : qs) : list (nat * list Z) := map (fun j => (j, res (getj s j))) (seq 0 (length (jobs s))).
+
+(* schedules in which the resources are taken in the order of the job ids (the queue semaphore wakes its waiters in
+   FIFO order, and jobs reach it in the order of their submission): an enabled [Take j] happens only when no job with a
+   smaller id is still waiting *)
+Definition not_waiting (s : qs) (k : nat) : bool := match ph (getj s k) with Waiting => false | _ => true end.
+Fixpoint fifo_sched (pop : nat) (s : qs) (sched : list qev) : bool :=
+  match sched with
+  | [] => true
+  | e :: t =>
+      (if enabled pop s e then match e with Take j => forallb (not_waiting s) (seq 0 j) | _ => true end else true)
+      && fifo_sched pop (qstep pop s e) t
+  end.
